@@ -11,7 +11,8 @@ for d in sorted(glob.glob('/tmp/mut/C??.out/[AB]')) + sorted(glob.glob('/tmp/mut
         x = {'A': 'C', 'B': 'D'}[x]  # second round
     name = pid + x
     if not os.path.exists(f'{d}/patch.diff') or not os.path.exists(f'{d}/meta.json'): continue
-    conf = json.load(open(f'{d}/confirm.json')) if os.path.exists(f'{d}/confirm.json') else {}
+    if not os.path.exists(f'{d}/confirm.json'): continue  # not confirmed (yet)
+    conf = json.load(open(f'{d}/confirm.json'))
     meta = json.load(open(f'{d}/meta.json'))
     note = notes.get(name, {})
     suite = note.get('full_suite', conf.get('full_suite', 'not run'))
@@ -26,7 +27,7 @@ for d in sorted(glob.glob('/tmp/mut/C??.out/[AB]')) + sorted(glob.glob('/tmp/mut
             except Exception: pass
         verdict = 'detected' if 'VIOLATION property=' in txt else ('inconclusive' if 'INCONCLUSIVE' in txt else 'missed')
         det[cid] = {'verdict': verdict, 'signatures': sorted(set(sigs))[:6]}
-    status = 'kept' if ok and not note.get('rejected') else 'rejected'
+    status = 'kept' if ok and not note.get('rejected') else ('rejected' if note.get('rejected') or conf.get('demo_on_clean_tree_rc') != '0' or conf.get('build_rc') != '0' or conf.get('demo_with_change_rc') in (None, '0') or str(suite).startswith('FAIL') else 'suite-not-run-yet')
     rows.append((name, pid, meta.get('title', ''), status, det, note))
     if status != 'kept': continue
     out = f'{root}/seeded/{name}'
